@@ -9,6 +9,16 @@ CHECKS = {
    text="Generated-input search. Every (file, root node, kind set) case compares solstat's tree search, as a sequence of Node values, with an independent pre-order reference traversal filtered by kind (both directions: nothing missing, duplicated, foreign or out of order). The slot matrix enumerates every child slot of every parse-tree variant x 18+8+4 markers completely on every run; proptest adds thousands of random programs with random roots and kind sets and shrinks failures on the byte tape. Exploration, not proof: absence of a counterexample within the explored programs.",
    note="Trusted: solang-parser 0.1.18 (shared front end), the reference traversal in harness/src/refmodel/walk.rs (exhaustive matches, no wildcard arms), proptest, rustc.",
    design="DESIGN.md section 5 C01"),
+ "C02": dict(
+   technique="property-based testing: reference line model (bounded-exhaustive short strings + random Unicode texts) and differential end-to-end check of the loc-set to line-set step under generated re-layouts",
+   text="Generated-input search. (a) get_line_number is compared with the model 1 + #LF-before-offset for every string of length <= 7 (thorough: 9) over {a, LF, CR, 2-byte char, blank} at every non-blank offset (complete enumeration) and for random Unicode texts with LF/CRLF/lone-CR mixes; (b) for generated programs in 4 fixed and 2 random layouts (comments, CRLF, multi-byte, no final newline) and all 30 patterns, analyze_for_* must equal the lines of the detector's own locations under the model. Exploration; which location each detector must choose is pinned by C05-C08/C17.",
+   note="Trusted: the line model taken from the property statement, solang-parser locations, proptest.",
+   design="DESIGN.md section 5 C02"),
+ "C04": dict(
+   technique="property-based testing / fuzzing for totality: generated and feature-directed parser-accepted files, all 30 detectors under catch_unwind, two build profiles",
+   text="Generated-input search for aborts. Every parser-accepted file (feature-directed list: no/odd/huge pragmas, free functions, literals beyond u32..2^256 and with exponents, zero-argument calls, 254..600 functions before a constructor, deep and wide files; plus tape-decoded random programs with arbitrary pragma placement, deep and wide streams) is run through all 30 analyze_for_* entry points under catch_unwind, in a build with overflow checks/debug assertions and in one without. A panic is a violation keyed by its source location. Exploration: totality is only shown on what was generated.",
+   note="Trusted: solang-parser (inputs it rejects or panics on are outside the domain), the panic hook/catch_unwind capture, proptest.",
+   design="DESIGN.md section 5 C04"),
 }
 
 NOT_YET = {
